@@ -189,10 +189,13 @@ CLAIMED = {
    text=("Lean theorems: the __eq__ chains of Size/Point/Stretch/Padding/Alignment/Layout are true exactly when all geometric components are equal "
          "(webvtt_positioning excluded), equal values hash equally for ANY component hash functions, Size.from_string accepts exactly the language "
          "digits+[.digits+]unit | 0 (both directions, for every string; the `$`-before-final-newline deviation of the pinned regex is visible in the statement), "
-         "rejections are syntax errors, padding shorthands of 1-4 sizes expand in TTML order and print in TTML order. Correspondence: all ordered pairs of a "
+         "rejections are syntax errors, padding shorthands of 1-4 sizes expand in TTML order and print in TTML order; for EVERY non-negative size, parsing what "
+         "__str__ printed gives the value rounded half-to-even to two decimals with the same unit (size_print_parse: whole numbers, stripped zeros and two-decimal "
+         "spellings are each read back as printed), a value of at most two decimals is reproduced exactly (size_print_parse_exact) and printing is stable under "
+         "re-parsing (size_print_idempotent). Correspondence: all ordered pairs of a "
          "per-type grid, every string of length <=4 (quick) / <=5 (thorough) over the 14-symbol alphabet, print/re-parse grid incl. 2-decimal ties, receiver snapshots."),
    ref="§3 C18", technique="Lean 4 proof (structural, string induction for the grammar) + pinned regex text + exhaustive short-string correspondence",
-   note=NOTE_COMMON + "Real hash() is only checked for 'equal implies equal hash' by execution; float printing is compared against the exact-rational model fed with the float's exact binary value; print/re-parse round trip is checked by execution, not proved."),
+   note=NOTE_COMMON + "Real hash() is only checked for 'equal implies equal hash' by execution; float printing is compared against the exact-rational model fed with the float's exact binary value (round(value, 2) and the ':.2f' formatting of doubles are modelled by exact half-even rounding; the print/re-parse theorems are about that model, their agreement with the float code is established by execution on the value grid)."),
 
  "C19": dict(
    text=("Lean theorems for every caption list (any length, any rational times, opaque nodes): the accumulator loop of merge_concurrent_captions "
